@@ -52,9 +52,12 @@ func (c *Case) document() string {
 		}
 		args = "(" + strings.Join(parts, ", ") + ")"
 	}
-	if c.Site == "field" {
+	switch c.Site {
+	case "field":
 		b.WriteString(" { f" + args + " }")
-	} else {
+	case "skip", "include": // the built-in directives, argument "if: Boolean!"
+		b.WriteString(" { g @" + c.Site + args + " }")
+	default:
 		b.WriteString(" { g @flt" + args + " }")
 	}
 	return b.String()
@@ -105,6 +108,16 @@ func (c *Case) schema(rec *recorder) *graphql.Schema {
 			}},
 		"skip": graphql.SkipDirective, "include": graphql.IncludeDirective,
 	}}
+	if c.Site == "skip" || c.Site == "include" {
+		// the library's own definition, its filter wrapped so that what it is handed is recorded
+		builtin := *def.Directives[c.Site]
+		filter := builtin.FieldCollectionFilter
+		builtin.FieldCollectionFilter = func(arguments map[string]interface{}) bool {
+			rec.calls = append(rec.calls, argsSexp(arguments))
+			return filter(arguments)
+		}
+		def.Directives[c.Site] = &builtin
+	}
 	for _, n := range c.Reg.closure(tys...) {
 		def.AdditionalTypes = append(def.AdditionalTypes, c.Reg.gql[n])
 	}
